@@ -286,14 +286,13 @@ func runC02(c *core.Ctx) {
 			ok = add(r.Intn(4 * n0))
 		}
 	case 4:
-		// Build a minimal-node (Fibonacci) AVL tree shape by inserting keys in
-		// pre-order of that shape, then delete from the shallow side.
+		// Build the sparsest (Fibonacci) AVL tree shape by inserting its keys in
+		// level order (no rotation happens), then delete from the shallow side.
 		h := 2
 		for fibSize(h+1) <= n0 && h < 22 {
 			h++
 		}
-		var order []int
-		fibPreorder(h, 0, &order)
+		order := fibLevelOrder(h)
 		for _, v := range order {
 			if ok = add(v); !ok {
 				break
@@ -402,14 +401,26 @@ func fibSize(h int) int {
 	return 1 + fibSize(h-1) + fibSize(h-2)
 }
 
-// fibPreorder emits the keys of a minimal AVL tree of height h (left subtree the
-// taller one) in pre-order; keys are the in-order ranks offset by base.
-func fibPreorder(h, base int, out *[]int) {
-	if h <= 0 {
-		return
+// fibLevelOrder returns the keys (in-order ranks) of the sparsest AVL tree of
+// height h - every node's left subtree one level taller than its right one -
+// in LEVEL order. Inserting them in this order into a correct AVL tree never
+// triggers a rotation (every prefix is a truncation of the final shape, which
+// is itself balanced), so the tree ends up with exactly this maximal-height
+// shape. (Pre-order insertion, used at first, does rotate: the left spine grows
+// before the right siblings exist.)
+func fibLevelOrder(h int) []int {
+	type nd struct{ h, base int }
+	var out []int
+	q := []nd{{h, 0}}
+	for len(q) > 0 {
+		x := q[0]
+		q = q[1:]
+		if x.h <= 0 {
+			continue
+		}
+		l := fibSize(x.h - 1)
+		out = append(out, x.base+l)
+		q = append(q, nd{x.h - 1, x.base}, nd{x.h - 2, x.base + l + 1})
 	}
-	l := fibSize(h - 1)
-	*out = append(*out, base+l)
-	fibPreorder(h-1, base, out)
-	fibPreorder(h-2, base+l+1, out)
+	return out
 }
